@@ -104,31 +104,32 @@ fn ref_field(k: &TypeInfoKind, data: &[u8], off: usize, big: bool) -> Option<(Va
     }
 }
 
-fn check_ca<const K: usize, const N: usize>() {
-    let data: [u8; N] = kani::any();
-    let n: usize = kani::any();
-    kani::assume(n <= N);
-    let data = &data[..n];
-    let big: bool = kani::any();
-    let cnt: usize = kani::any();
-    kani::assume(cnt <= K);
-    let mut types: Vec<TypeInfo> = Vec::with_capacity(K);
+/// One constant SHAPE: the list of signal types, the payload length N, the byte order and (for
+/// strings / raw data) the 16-bit length prefix are constants; every other payload byte is
+/// symbolic. (Symbolic type lists / lengths make CBMC allocate symbolic sizes and do not finish.)
+/// Real construct_arguments vs the reference walk: Ok(values) == reference, Err iff the
+/// reference refuses (too short / invalid UTF-8); no panic (CBMC's own checks).
+fn check_ca_shape<const N: usize>(kinds: &[TypeInfoKind], big: bool, prefix: Option<(usize, u16)>) {
+    let mut data: [u8; N] = kani::any();
+    if let Some((at, l)) = prefix {
+        let b = if big { l.to_be_bytes() } else { l.to_le_bytes() };
+        if at < N { data[at] = b[0]; }
+        if at + 1 < N { data[at + 1] = b[1]; }
+    }
+    let mut types: Vec<TypeInfo> = Vec::with_capacity(kinds.len());
     let mut i = 0;
-    while i < K {
-        if i < cnt {
-            types.push(any_type_info(any_supported_kind()));
-        }
+    while i < kinds.len() {
+        types.push(any_type_info(kinds[i].clone()));
         i += 1;
     }
-    let r = construct_arguments(if big { Endianness::Big } else { Endianness::Little }, &types, data);
-    // reference walk
+    let r = construct_arguments(if big { Endianness::Big } else { Endianness::Little }, &types, &data);
     let mut off = 0usize;
     let mut ok = true;
-    let mut expected: Vec<Value> = Vec::with_capacity(K);
+    let mut expected: Vec<Value> = Vec::with_capacity(kinds.len());
     let mut j = 0;
-    while j < K {
-        if j < cnt && ok {
-            match ref_field(&types[j].kind, data, off, big) {
+    while j < kinds.len() {
+        if ok {
+            match ref_field(&kinds[j], &data, off, big) {
                 Some((v, o2)) => { expected.push(v); off = o2; }
                 None => { ok = false; }
             }
@@ -138,14 +139,12 @@ fn check_ca<const K: usize, const N: usize>() {
     match r {
         Ok(args) => {
             assert!(ok);
-            assert!(args.len() == cnt);
+            assert!(args.len() == kinds.len());
             let mut t = 0;
-            while t < K {
-                if t < cnt {
-                    assert!(args[t].type_info == types[t]);
-                    assert!(value_eq(&args[t].value, &expected[t]));
-                    assert!(args[t].name.is_none() && args[t].unit.is_none() && args[t].fixed_point.is_none());
-                }
+            while t < kinds.len() {
+                assert!(args[t].type_info == types[t]);
+                assert!(value_eq(&args[t].value, &expected[t]));
+                assert!(args[t].name.is_none() && args[t].unit.is_none() && args[t].fixed_point.is_none());
                 t += 1;
             }
         }
@@ -153,29 +152,69 @@ fn check_ca<const K: usize, const N: usize>() {
     }
 }
 
-#[kani::proof]
-#[kani::stub(alloc::fmt::format, fmt_stub)]
-#[kani::unwind(20)]
-fn c13_ca_k1_n18() {
-    check_ca::<1, 18>();
+macro_rules! ca_harness {
+    ($name:ident, $n:expr, $big:expr, $prefix:expr, [$($k:expr),*]) => {
+        #[kani::proof]
+        #[kani::stub(alloc::fmt::format, fmt_stub)]
+        #[kani::unwind(20)]
+        fn $name() {
+            check_ca_shape::<$n>(&[$($k),*], $big, $prefix);
+        }
+    };
 }
+use TypeInfoKind as K;
+use TypeLength as L;
+// bool at the end of the data / exact / trailing byte
+ca_harness!(c13_bool_n0, 0, true, None, [K::Bool]);
+ca_harness!(c13_bool_n1, 1, true, None, [K::Bool]);
+ca_harness!(c13_bool_n2, 2, false, None, [K::Bool]);
+ca_harness!(c13_u16_bool_n2_be, 2, true, None, [K::Unsigned(L::BitLength16), K::Bool]);
+ca_harness!(c13_u16_bool_n3_le, 3, false, None, [K::Unsigned(L::BitLength16), K::Bool]);
+ca_harness!(c13_u16_bool_n1, 1, true, None, [K::Unsigned(L::BitLength16), K::Bool]);
+// integers of every width, both orders, truncated by one byte and exact
+ca_harness!(c13_u8_i32_n5_be, 5, true, None, [K::Unsigned(L::BitLength8), K::Signed(L::BitLength32)]);
+ca_harness!(c13_u8_i32_n4_le, 4, false, None, [K::Unsigned(L::BitLength8), K::Signed(L::BitLength32)]);
+ca_harness!(c13_i8_u32_n6_le, 6, false, None, [K::Signed(L::BitLength8), K::Unsigned(L::BitLength32)]);
+ca_harness!(c13_u64_n8_le, 8, false, None, [K::Unsigned(L::BitLength64)]);
+ca_harness!(c13_i64_n9_be, 9, true, None, [K::Signed(L::BitLength64)]);
+ca_harness!(c13_u64_n7, 7, true, None, [K::Unsigned(L::BitLength64)]);
+ca_harness!(c13_i128_n16_be, 16, true, None, [K::Signed(L::BitLength128)]);
+ca_harness!(c13_u128_n16_le, 16, false, None, [K::Unsigned(L::BitLength128)]);
+ca_harness!(c13_u128_n15, 15, false, None, [K::Unsigned(L::BitLength128)]);
+ca_harness!(c13_i16_i16_n4_be, 4, true, None, [K::Signed(L::BitLength16), K::Signed(L::BitLength16)]);
+// floats
+ca_harness!(c13_f32_n4_be, 4, true, None, [K::Float(FloatWidth::Width32)]);
+ca_harness!(c13_f32_n3, 3, false, None, [K::Float(FloatWidth::Width32)]);
+ca_harness!(c13_f64_n8_le, 8, false, None, [K::Float(FloatWidth::Width64)]);
+ca_harness!(c13_u8_f64_n9_be, 9, true, None, [K::Unsigned(L::BitLength8), K::Float(FloatWidth::Width64)]);
+// raw data: 16-bit length prefix 3 (constant), cut inside the prefix / inside the body / exact / trailing
+ca_harness!(c13_raw3_n1, 1, true, Some((0, 3)), [K::Raw]);
+ca_harness!(c13_raw3_n3, 3, true, Some((0, 3)), [K::Raw]);
+ca_harness!(c13_raw3_n4, 4, false, Some((0, 3)), [K::Raw]);
+ca_harness!(c13_raw3_n5_be, 5, true, Some((0, 3)), [K::Raw]);
+ca_harness!(c13_raw3_n6_le, 6, false, Some((0, 3)), [K::Raw]);
+ca_harness!(c13_raw0_u8_n3, 3, true, Some((0, 0)), [K::Raw, K::Unsigned(L::BitLength8)]);
+ca_harness!(c13_u8_raw1_n4, 4, false, Some((1, 1)), [K::Unsigned(L::BitLength8), K::Raw]);
+// strings: length prefix 2 (constant), every content (valid and invalid UTF-8), cut / exact / trailing
+ca_harness!(c13_str2_n3, 3, true, Some((0, 2)), [K::StringType]);
+ca_harness!(c13_str2_n4_be, 4, true, Some((0, 2)), [K::StringType]);
+ca_harness!(c13_str2_n5_le, 5, false, Some((0, 2)), [K::StringType]);
+ca_harness!(c13_str0_bool_n3, 3, false, Some((0, 0)), [K::StringType, K::Bool]);
 
-#[kani::proof]
-#[kani::stub(alloc::fmt::format, fmt_stub)]
-#[kani::unwind(20)]
-fn c13_ca_k2_n10() {
-    check_ca::<2, 10>();
+macro_rules! ca_nopanic {
+    ($name:ident, $n:expr, $big:expr, $k:expr) => {
+        #[kani::proof]
+        #[kani::stub(alloc::fmt::format, fmt_stub)]
+        #[kani::unwind(20)]
+        fn $name() {
+            let data: [u8; $n] = kani::any();
+            let types = vec![any_type_info($k)];
+            let _ = construct_arguments(if $big { Endianness::Big } else { Endianness::Little }, &types, &data);
+        }
+    };
 }
-
-/// fixed-point kinds are outside the property's vocabulary: panic freedom only
-#[kani::proof]
-#[kani::stub(alloc::fmt::format, fmt_stub)]
-#[kani::unwind(20)]
-fn c13_ca_fixed_point_nopanic() {
-    let data: [u8; 18] = kani::any();
-    let n: usize = kani::any();
-    kani::assume(n <= 18);
-    let kind = if kani::any() { TypeInfoKind::SignedFixedPoint(any_float_width()) } else { TypeInfoKind::UnsignedFixedPoint(any_float_width()) };
-    let types = vec![any_type_info(kind)];
-    let _ = construct_arguments(any_endianness(), &types, &data[..n]);
-}
+// fixed-point kinds are outside the property's vocabulary: panic freedom only
+ca_nopanic!(c13_sfix32_n8_nopanic, 8, true, K::SignedFixedPoint(FloatWidth::Width32));
+ca_nopanic!(c13_ufix64_n8_nopanic, 8, false, K::UnsignedFixedPoint(FloatWidth::Width64));
+ca_nopanic!(c13_ufix32_n3_nopanic, 3, true, K::UnsignedFixedPoint(FloatWidth::Width32));
+ca_nopanic!(c13_sfix64_n20_nopanic, 20, false, K::SignedFixedPoint(FloatWidth::Width64));
